@@ -75,6 +75,16 @@ P08(cf, op, call, xs, ret) ==
              \cup (IF ret.ok /\ (LastStatus(xs[1]) = <<>> \/ ret.val # SummaryOf(LastStatus(xs[1])[1])) THEN {"P08-summary"} ELSE {})
         ELSE {})
 
+\* the pairing of token and receipt number, independent of whether the token still counts as open: a release that carries the
+\* token of a reservation carries the receipt number the terminal issued for that reservation (hist: token -> receipt number of
+\* the last reservation recorded for it; a token is entered exactly when P_C07's map gains it)
+HistNext(hist, before, after, call) == IF call.op = "begin" /\ call.tok \in DOMAIN after /\ call.tok \notin DOMAIN before
+                                       THEN With(hist, call.tok, after[call.tok]) ELSE hist
+P08h(hist, call, xs) ==
+  IF call.op = "commit" /\ xs # <<>> /\ xs[1].seq = "PartialReversal" /\ ~IsPendingQuery(xs[1]) /\ xs[1].val # <<>>
+     /\ xs[1].val.tlv = Bmp60(call.tok) /\ call.tok \in DOMAIN hist /\ xs[1].val.receipt_no # <<hist[call.tok]>>
+  THEN {"P08-release-wiring"} ELSE {}
+
 \* ---- C19: going idle triggers the clean-up; never while transactions are open
 P19(cf, op, call, xs, ret) ==
   IF ~(call.op \in {"commit", "cancel"} /\ call.tok \in DOMAIN op /\ xs # <<>>) THEN {}
